@@ -23,6 +23,8 @@ pub enum Ev {
     AppPing,
     AppSetWindow(u32),
     AppRespondBody(usize),
+    /// push_request on the open stream (at most twice)
+    AppPush,
     Drive,
     DriveBudget(usize),
     DriveBlocked,
@@ -39,6 +41,9 @@ pub fn settings_menu() -> Vec<Vec<(u16, u32)>> {
         vec![(wf::setting::MAX_FRAME_SIZE, 20_000), (wf::setting::INITIAL_WINDOW_SIZE, 30_000)],
         vec![(wf::setting::ENABLE_PUSH, 0)],
         vec![(wf::setting::MAX_HEADER_LIST_SIZE, 100), (0x99, 5)],
+        // a parameter that changes something next to one that changes nothing (the window as it is), in both orders
+        vec![(wf::setting::ENABLE_PUSH, 0), (wf::setting::INITIAL_WINDOW_SIZE, 65_535)],
+        vec![(wf::setting::INITIAL_WINDOW_SIZE, 65_535), (wf::setting::MAX_FRAME_SIZE, 16_385)],
     ]
 }
 
@@ -58,6 +63,7 @@ pub struct World {
     pub stray_settings_ack_sent: bool,
     pub local_windows: Vec<u32>,
     pub responded: bool,
+    pub pushes: usize,
     pub stream_open: bool,
     pub acct: FlowAcct,
 }
@@ -72,7 +78,7 @@ impl AckModel {
         let mut ev = vec![];
         let sm = settings_menu();
         for i in 0..sm.len() {
-            if quick && [2usize, 8].contains(&i) {
+            if quick && [2usize, 8, 10].contains(&i) {
                 continue;
             }
             ev.push(Ev::PeerSettings(i));
@@ -95,6 +101,7 @@ impl AckModel {
             ev.push(Ev::AppSetWindow(100_000));
         }
         ev.push(Ev::AppRespondBody(40_000));
+        ev.push(Ev::AppPush);
         ev.push(Ev::Drive);
         ev.push(Ev::DriveBudget(9));
         if !quick {
@@ -203,7 +210,7 @@ impl Model for AckModel {
         let pp = if let Conn::Server(c) = &mut t.conn { c.ping_pong() } else { None };
         let mut acct = FlowAcct::new(Side::Server);
         acct.update(&t.mon);
-        World { pp, user_ping_outstanding: false, stray_settings_ack_sent: false, local_windows: vec![65535], responded: false, stream_open: true, acct }
+        World { pp, user_ping_outstanding: false, stray_settings_ack_sent: false, local_windows: vec![65535], responded: false, pushes: 0, stream_open: true, acct }
     }
     fn n_events(&self) -> usize {
         self.events.len()
@@ -239,6 +246,7 @@ impl Model for AckModel {
             Ev::AppPing => w.pp.is_some() && !w.user_ping_outstanding,
             Ev::AppSetWindow(x) => w.local_windows.last() != Some(x) && t.mon.unacked_settings[t.role.idx()].is_empty(),
             Ev::AppRespondBody(_) => !w.responded,
+            Ev::AppPush => !w.responded && w.pushes < 2,
             _ => true,
         }
     }
@@ -286,6 +294,17 @@ impl Model for AckModel {
                     }
                 }
                 w.responded = true;
+            }
+            Ev::AppPush => {
+                if let Some(a) = t.accepted.iter_mut().find(|a| a.sid == 1) {
+                    if let Some(r) = a.respond.as_mut() {
+                        // (refused by h2 once the peer's ENABLE_PUSH = 0 is in force: that is the obedient outcome)
+                        if let Some(Ok(mut p)) = guarded(&mut panics, "push_request", || r.push_request(simple_request("/pushed", false))) {
+                            let _ = guarded(&mut panics, "pushed send_response", || p.send_response(simple_response(200), true).map(drop));
+                        }
+                    }
+                }
+                w.pushes += 1;
             }
             Ev::Drive => {
                 t.drive(200);
@@ -368,7 +387,7 @@ impl Model for AckModel {
         let (s_in, s_ack, pings, pongs) = ack_counts(t);
         let pv = crate::c03::peer_view(t);
         format!(
-            "owed_acks={} owed_pongs={:?} unacked={:?} user_ping={} stray={} windows={:?} responded={} credit={}/{} pv={}/{} acked={:?}",
+            "owed_acks={} owed_pongs={:?} unacked={:?} user_ping={} stray={} windows={:?} responded={} pushes={} credit={}/{} pv={}/{} acked={:?}",
             s_in - s_ack.min(s_in),
             &pings[pongs.len().min(pings.len())..],
             t.mon.unacked_settings,
@@ -376,6 +395,7 @@ impl Model for AckModel {
             w.stray_settings_ack_sent,
             w.local_windows.last(),
             w.responded,
+            w.pushes,
             w.acct.conn_credit,
             w.acct.stream_credit(1),
             pv.v0(),
